@@ -24,6 +24,8 @@ RULE = ('histories over the alphabet {read_x, read_y, read_r, read_t, crop, pad1
         'NaN/+inf/-inf} x dx in {1, 0.37}; dx = 0 (constructor without lateral calibration) with length-2 histories over the operations '
         'that do not divide by dx; memory layouts: data Fortran-ordered / a transposed view / strided / negatively strided x every invalid '
         'pattern x shapes 9x7, 7x10, every operation (length 1; length 2 on 4 (quick), length 2 on all and 3 on 4 (thorough)), each history '
+        'run likewise; degenerate extents 1x1, 1x2, 2x1, 1x5, 5x1, 2x2, 2x3, 3x2, 3x3, 1x9, 2x8 x {none, dropouts, mixed non-finite} through every operation '
+        '(length 1; length 2 on 6 (quick); length 2 on all, 3 on 6 (thorough)) with value-level model comparison; layout histories are each '
         'run on a C-contiguous copy as well and the two objects compared after every step; seeded random histories up to length 40 (random '
         'layout) with value-level model comparison at every step; crop '
         'additionally on every shape of a list (wide, tall, square, odd/even, 1-wide) x all 16 combinations of touching-the-edge / '
@@ -94,6 +96,19 @@ def make_data(shape, pattern, data_seed):
 
 
 LAYOUTS = ['C', 'F', 'T', 'strided', 'neg']
+# degenerate extents: a single sample, a single row / column, 2-sample axes (centre index 0 or 1, linspace(-1, 1, 1), rank-deficient
+# fits, one-sample bounding boxes) — "all data shapes" of the quantifier
+TINY_SHAPES = [(1, 1), (1, 2), (2, 1), (1, 5), (5, 1), (2, 2), (2, 3), (3, 2), (3, 3), (1, 9), (2, 8)]
+
+
+def tiny_configs():
+    out = []
+    for k, shape in enumerate(TINY_SHAPES):
+        for pat in ('none', 'dropouts', 'infs'):
+            if pat != 'none' and shape[0] * shape[1] < 3:
+                continue
+            out.append({'shape': list(shape), 'pattern': pat, 'dx': DXS[k % 2], 'data_seed': 5000 + k})
+    return out
 
 
 def relayout(z, layout):
@@ -586,7 +601,7 @@ class Runner:
         before = (i.data.copy(), float(i.dx))
         was = real_summary(i)
         trivial = op.startswith('read_') and was[op[-1]] not in (None, False)
-        ctx.case('history', case, nontrivial=not trivial, tag=op)
+        ctx.case('history', case, nontrivial=not trivial, tag=op + ('/tiny' if min(cfg['shape']) <= 3 else ''))
         pre_xy = None
         try:
             with warnings.catch_warnings():
@@ -886,6 +901,13 @@ def correspondence(ctx):
     for k, cfg in enumerate(lcfgs):
         depth = (ctx.scale(2, 3) if k in ldeep else ctx.scale(1, 2))
         _dfs(run, cfg, make_obj(cfg), [], [], ALPHABET if depth < 3 else DFS3_ALPHABET, depth)
+    # degenerate extents (1x1, single row / column, 2-sample axes): every operation, length 1 (quick: length 2 on 6) / 2 (thorough: 3 on 6)
+    tcfgs = tiny_configs()
+    tdeep = set(int(k) for k in ctx.rng.permutation(len(tcfgs))[:6 + 2 * widen])
+    for k, cfg in enumerate(tcfgs):
+        depth = (ctx.scale(2, 3) if k in tdeep else ctx.scale(1, 2))
+        _dfs(run, cfg, make_obj(cfg), [], [], ALPHABET if depth < 3 else DFS3_ALPHABET, depth, values=True)
+    run.flush()
     # exhaustive, prefix-shared
     ndeep = ctx.scale(2 + widen, 1)
     deep = [cfgs[k] for k in order[:ndeep]]
@@ -992,6 +1014,11 @@ def search(ctx, hints):
                 f = run_history(cfg, [op])
                 if f:
                     return {'item': 'history', 'input': dict(cfg, ops=[op]), 'detail': f[0]}
+    for cfg in tiny_configs():
+        for op in ALPHABET:
+            f = run_history(cfg, [op])
+            if f:
+                return {'item': 'history', 'input': dict(cfg, ops=[op]), 'detail': f[0]}
     pick = [c for c in cfgs if c['shape'] in ([8, 8], [9, 7]) and c['dx'] == 0.37]
     for L in (1, 2, 3):
         for cfg in pick:
